@@ -35,12 +35,12 @@ type textCase struct {
 }
 
 type readObs struct {
-	API  string `json:"api"`
-	K    string `json:"k"` // ok | err | panic | hang
-	Msg  string `json:"msg,omitempty"`
-	Site string `json:"site,omitempty"`
-	V    *Node  `json:"v,omitempty"`
-	Multi bool  `json:"multi,omitempty"`
+	API   string `json:"api"`
+	K     string `json:"k"` // ok | err | panic | hang
+	Msg   string `json:"msg,omitempty"`
+	Site  string `json:"site,omitempty"`
+	V     *Node  `json:"v,omitempty"`
+	Multi bool   `json:"multi,omitempty"`
 }
 
 func readVia(api string, text string, ns types.EnvType) readObs {
